@@ -398,11 +398,13 @@ namespace chaiscript {
                                         // the loop variable is an ordinary script value: it must be able to
                                         // outlive this frame when a lambda captures it
                                         const auto loop_var = std::make_shared<int>(start_int);
-                                        int &i = *loop_var;
-                                        t_ss.add_object(id, var(loop_var));
+                                        // the body can rebind the name (`i := other`): test and step the counter through its
+                                        // Boxed_Value, whose Data record every copy shares, as a lookup of the name would
+                                        const Boxed_Value counter = var(loop_var);
+                                        t_ss.add_object(id, counter);
 
                                         try {
-                                          for (; i < end_int; ++i) {
+                                          while (boxed_cast<const int &>(counter) < end_int) {
                                             try {
                                               // Body of Loop
                                               children[0]->eval(t_ss);
@@ -411,6 +413,12 @@ namespace chaiscript {
                                               // loop implementation is skipped and we just need to continue to
                                               // the next iteration step
                                             }
+
+                                            if (counter.is_const()) {
+                                              throw exception::eval_error(
+                                                  "Error with prefix operator evaluation: cannot modify constant value.");
+                                            }
+                                            ++boxed_cast<int &>(counter);
                                           }
                                         } catch (eval::detail::Break_Loop &) {
                                           // loop broken
